@@ -69,6 +69,7 @@ static int distinct_threads() {
 int main(int argc, char **argv) {
     vr::Args A(argc, argv);
     vr::Runner R;
+    if (A.has("deadline-s")) R.deadline_abs = vr::now_s() + A.getd("deadline-s", 0);
     R.nworkers = (int) A.geti("workers", 8);
     std::string mode = A.get("mode", "lib");
     std::vector<std::string> samples;
